@@ -103,6 +103,14 @@ Theorem C09_days_exact : forall n k,
   date_calc n (k * 86400) OSub = Ok (if day_in_range (n - k) then Some (add_days n (- k)) else None).
 Proof. exact calc_days. Qed.
 
+(* a negative duration (`12 jul 1997-1 year` is read as the date and the signed literal -1 year)
+   swaps the operation and is applied with its absolute value *)
+Theorem C09_negative_duration : forall days dur,
+  dur < 0 ->
+  date_calc days dur OAdd = date_calc days (- dur) OSub /\
+  date_calc days dur OSub = date_calc days (- dur) OAdd.
+Proof. exact negative_duration. Qed.
+
 (* KNOWN C09-duration-quantised: what k days do in general: k / 365 years, then (k mod 365) / 30
    months, then the remaining days *)
 Theorem C09_days_quantised : forall n y m d k,
@@ -254,6 +262,7 @@ Print Assumptions C09_to_days.
 Print Assumptions C09_to_symmetric.
 Print Assumptions C09_calc_item.
 Print Assumptions C09_days_exact.
+Print Assumptions C09_negative_duration.
 Print Assumptions C09_days_quantised.
 Print Assumptions C09_days_refuted.
 Print Assumptions C09_months_add.
